@@ -146,18 +146,26 @@ def one_case(cid, fam, rng, ksel=None):
                     def trans_sq(decnvec, latentvec, **kwargs):        # a non-linear transformation
                         return (latentvec ** 2).sum(0, keepdims=True)
                     choice = rng.choice(["identity", "sum", "dot", "sq"])
-                    wobj = [rng.choice([-1, 1, 2]) for _ in range(nlat if choice == "identity" else 1)]
+                    wobj = [rng.choice([-1, 0, 1, 2]) for _ in range(nlat if choice == "identity" else 1)]
                     lw = [rng.randrange(-2, 3) for _ in range(nlat)]
-                    okw = dict(nobj=len(wobj), obj_wt=np.array(wobj, dtype=float),
+                    # argument forms of the weights: an array, or one scalar for all components (a float, an int, zero included)
+                    def form(ws):
+                        if len(set(ws)) == 1 and rng.random() < 0.6:
+                            return rng.choice([float(ws[0]), int(ws[0])])
+                        return np.array(ws, dtype=float)
+                    if rng.random() < 0.4:
+                        wobj = [rng.choice([0, 0, 1, -2])] * len(wobj)
+                    wi = [rng.choice([2, 2, 0, 1])]; we = [rng.choice([-1, -1, 0, 3])]
+                    okw = dict(nobj=len(wobj), obj_wt=form(wobj),
                                obj_trans={"identity": trans_identity, "sum": trans_sum, "dot": trans_dot, "sq": trans_sq}[choice],
                                obj_trans_kwargs={"latentvec_wt": np.array(lw, dtype=float)} if choice == "dot" else None,
-                               nineqcv=1, ineqcv_wt=np.array([2.0]), ineqcv_trans=trans_sum, ineqcv_trans_kwargs=None,
-                               neqcv=1, eqcv_wt=np.array([-1.0]), eqcv_trans=trans_dot, eqcv_trans_kwargs={"latentvec_wt": np.array(lw, dtype=float)})
+                               nineqcv=1, ineqcv_wt=form(wi), ineqcv_trans=trans_sum, ineqcv_trans_kwargs=None,
+                               neqcv=1, eqcv_wt=form(we), eqcv_trans=trans_dot, eqcv_trans_kwargs={"latentvec_wt": np.array(lw, dtype=float)})
                     p2 = cls(**okw, **kw, **space(enc, n, k))
                     obj, ineq, eq = p2.evalfn(x)
                     case["obs"].append({"enc": "evalfn", "vals": [rat(v, ok) for v in np.asarray(obj).ravel()], "trans": choice, "wobj": wobj, "lw": lw})
-                    case["obs"].append({"enc": "evalfn", "vals": [rat(v, ok) for v in np.asarray(ineq).ravel()], "trans": "sum", "wobj": [2], "lw": lw})
-                    case["obs"].append({"enc": "evalfn", "vals": [rat(v, ok) for v in np.asarray(eq).ravel()], "trans": "dot", "wobj": [-1], "lw": lw})
+                    case["obs"].append({"enc": "evalfn", "vals": [rat(v, ok) for v in np.asarray(ineq).ravel()], "trans": "sum", "wobj": wi, "lw": lw})
+                    case["obs"].append({"enc": "evalfn", "vals": [rat(v, ok) for v in np.asarray(eq).ravel()], "trans": "dot", "wobj": we, "lw": lw})
         case["lat"] = ok[0]
     except Exception as e:
         case["err"] = "%s: %s" % (type(e).__name__, str(e)[:200])
